@@ -170,6 +170,47 @@ func c06(run *ev.Run, tier string) {
 		}
 		removeWorkDir(root)
 	}
+	// signed debs whose signature member has an odd / even length (the ar
+	// writer pads odd members with one more write): callback signers of fixed size
+	{
+		wd := newWorkDir("c06sig")
+		pf := filepath.Join(wd, "p.txt")
+		_ = os.WriteFile(pf, []byte("payload\n"), 0o644)
+		s := &gen.Spec{Name: "sigpad", Arch: "amd64", Version: "1.0.0", Maintainer: "S <s@example.com>", Description: "d", MTime: 1500000000}
+		s.Contents = []*gen.Content{{Src: pf, Dst: "/opt/sigpad/p.txt"}}
+		for _, method := range []string{"debsign", "dpkg-sig"} {
+			for _, siglen := range []int{100, 101, 1, 2} {
+				s.Deb.Sig.Method = method
+				y := s.YAML()
+				tw := func(i *nfpm.Info) {
+					i.Deb.Signature.SignFn = func(io.Reader) ([]byte, error) { return bytes.Repeat([]byte("s"), siglen), nil }
+				}
+				probe := &faultWriter{k: -1}
+				if err, pn := packageTo(y, "deb", probe, tw); err != nil || pn != "" {
+					run.Violate("C06/deb/clean-build-failed", map[string]any{"variant": "callback-signature", "error": fmt.Sprint(err, pn)})
+					continue
+				}
+				for k := 0; k < probe.calls; k++ {
+					for _, v := range []struct {
+						name           string
+						short, oneShot bool
+					}{{"error-sticky", false, false}, {"short-write-sticky", true, false}, {"error-one-shot", false, true}} {
+						fw := &faultWriter{k: k, short: v.short, oneShot: v.oneShot}
+						err, pn := packageTo(y, "deb", fw, tw)
+						atomic.AddInt64(&injected, 1)
+						if fw.failed {
+							atomic.AddInt64(&reached, 1)
+						}
+						run.Case(fmt.Sprintf("w|sigpad|%s|%d|%s|%d", method, siglen, v.name, k), fw.failed)
+						if pn != "" || fw.failed && err == nil {
+							run.Violate("C06/deb/write-fault-reported-as-success/"+v.name, map[string]any{"variant": "callback signature of " + fmt.Sprint(siglen) + " bytes (" + method + ")", "k": k, "writes_in_clean_run": probe.calls, "panic": pn})
+						}
+					}
+				}
+			}
+		}
+		removeWorkDir(wd)
+	}
 	run.Set("write_faults_injected", injected)
 	run.Set("write_faults_reached", reached)
 	run.Set("max_writes_in_one_output", maxWrites)
